@@ -1,12 +1,228 @@
-(* Props/C06.v — property C06 (preliminary: table data only; extended below as proofs land) *)
-From PV Require Import Base.Bytes Gen.C06Tables Spec.C06Instr Spec.C06Entries Model.C06Callframe
-     Proofs.C06GenProofs.
+(* Props/C06.v — property C06: call-frame information is parsed and interpreted per
+   DWARF / .eh_frame rules.  Only statements, closed by [exact]; proofs live in
+   Proofs/C06GenProofs.v, C06InstrProofs.v, C06TableProofs.v, C06EntriesProofs.v.
+   Models: Model/C06Callframe.v (CallFrameInfo: entry scan, augmentation, pointer encodings,
+   instruction splitting), Model/C06Table.v (CFIEntry._decode_CFI_table).
+   Specs:  Spec/C06Instr.v (DWARF 5 6.4.2 / 7.24 instruction encoding), Spec/C06Entries.v
+   (.debug_frame / .eh_frame layout), Spec/C06Cfi.v (the 6.4 reference interpreter),
+   Spec/C06View.v (how a spec object is observed through the library's API types). *)
 From Coq Require Import String.
+From PV Require Import Base.Bytes Gen.C06Tables Spec.C06View
+     Proofs.C06GenProofs Proofs.C06TableProofs Proofs.C06InstrProofs Proofs.C06EntriesProofs.
+From Coq Require Import List.
 Open Scope Z_scope.
 
+(* ------------------------------------------------------------------ data of callframe.py *)
+(* DW_CFA_* as the module sees them (globals() scan included) = DWARF 5 Table 7.29 + GNU *)
 Theorem C06_gen_DW_CFA_is_spec : forall n, assoc_s n gen_DW_CFA = assoc_s n spec_DW_CFA.
 Proof. exact gen_DW_CFA_is_spec. Qed.
 Print Assumptions C06_gen_DW_CFA_is_spec.
 
 Example C06_ex_gen : assoc_s "DW_CFA_def_cfa_sf" gen_DW_CFA = Some 0x12.
 Proof. reflexivity. Qed.
+
+(* _OPCODE_NAME_MAP names every opcode by a name the standard gives that opcode ... *)
+Theorem C06_gen_OPCODE_NAME_MAP_sound : forall op name,
+  assocZ op gen_OPCODE_NAME_MAP = Some name -> assoc_s name spec_DW_CFA = Some op.
+Proof. exact gen_OPCODE_NAME_MAP_sound. Qed.
+Print Assumptions C06_gen_OPCODE_NAME_MAP_sound.
+
+(* ... and knows every opcode of the table *)
+Theorem C06_gen_OPCODE_NAME_MAP_complete : forall name op,
+  In (name, op) spec_DW_CFA -> exists name', assocZ op gen_OPCODE_NAME_MAP = Some name'.
+Proof. exact gen_OPCODE_NAME_MAP_complete. Qed.
+Print Assumptions C06_gen_OPCODE_NAME_MAP_complete.
+
+Theorem C06_gen_masks : PRIMARY_MASK = 0xC0 /\ PRIMARY_ARG_MASK = 0x3F.
+Proof. exact gen_masks. Qed.
+Print Assumptions C06_gen_masks.
+
+(* _eh_encoding_to_field = the nine DW_EH_PE value formats; the application codes *)
+Theorem C06_gen_eh_formats :
+  gen_eh_encoding_to_field = map (fun f => (format_code f, format_kind f)) all_formats
+  /\ DW_EH_PE_absptr = 0 /\ DW_EH_PE_pcrel = DW_EH_PE_pcrel_code
+  /\ DW_EH_PE_omit = DW_EH_PE_omit_code.
+Proof. exact gen_eh_formats. Qed.
+Print Assumptions C06_gen_eh_formats.
+
+(* ------------------------------------------------------------------ instruction split *)
+(* any well-formed instruction list (all opcodes, any valid LEB128 padding, blocks), encoded at
+   any position of any stream, is split into exactly its opcodes and operands, and the cursor
+   ends exactly at the end of the encoded list *)
+Theorem C06_parse_instructions_at : forall le fmt asize, (asize = 4 \/ asize = 8)%nat ->
+  forall is stream pos post fuel,
+  zlen stream < 2 ^ 63 -> wf_instrs asize is = true ->
+  cursor stream pos (encode_instrs le asize is ++ post) -> (length is < fuel)%nat ->
+  parse_instructions fuel (structs_for le fmt asize) stream pos
+                     (pos + zlen (encode_instrs le asize is))
+  = Ok (map to_raw is, pos + zlen (encode_instrs le asize is)).
+Proof. exact parse_instructions_at. Qed.
+Print Assumptions C06_parse_instructions_at.
+
+Theorem C06_instrs_roundtrip : forall le fmt asize is,
+  (asize = 4 \/ asize = 8)%nat -> wf_instrs asize is = true ->
+  zlen (encode_instrs le asize is) < 2 ^ 63 ->
+  let bs := encode_instrs le asize is in
+  parse_instructions (S (length bs)) (structs_for le fmt asize) bs 0 (zlen bs)
+  = Ok (map to_raw is, zlen bs).
+Proof. exact instrs_roundtrip. Qed.
+Print Assumptions C06_instrs_roundtrip.
+
+Example C06_ex_instrs :
+  let is := [I_def_cfa (mkleb 7 [0x87; 0x00]) (mkleb 8 [8]); I_offset 16 (mkleb 1 [1]);
+             I_advance_loc 3; I_def_cfa_sf (mkleb 7 [7]) (mkleb (-2) [0x7e]);
+             I_expression (mkleb 3 [3]) (mkleb 2 [2]) [0x77; 0x08]; I_set_loc 0x11223344] in
+  wf_instrs 4 is = true /\
+  parse_instructions 100 (structs_for true 32 4) (encode_instrs true 4 is) 0
+                     (zlen (encode_instrs true 4 is)) = Ok (map to_raw is, 20).
+Proof. split; vm_compute; reflexivity. Qed.
+
+(* ------------------------------------------------------------------ entries of a section *)
+(* Every well-formed .debug_frame / .eh_frame section (Spec/C06Entries.wf_section: CIE versions
+   1/3/4, 32/64-bit DWARF, address size 4/8, both byte orders, augmentations "" and z+RLPS in any
+   order, the nine pointer formats absolute or pc-relative, any section address, FDEs referring
+   to any CIE before or after them, zero terminators, every LEB128 padding) is parsed by the model
+   of CallFrameInfo.get_entries into exactly the expected objects, in section order: kind, offset,
+   header fields, augmentation dict and bytes, pc-relative initial location, address range, LSDA
+   pointer, split instructions, entry structs, and the FDE's cie object = the object of the CIE
+   its pointer designates. *)
+Theorem C06_entries_roundtrip : forall s,
+  wf_section s = true -> get_entries (cfi_of s) = Ok (expected_entries s).
+Proof. exact entries_roundtrip. Qed.
+Print Assumptions C06_entries_roundtrip.
+
+(* entry number k is reported at position k as the view of that entry at its offset ... *)
+Theorem C06_expected_entries_nth : forall s k e, nth_error (s_entries s) k = Some e ->
+  nth_error (expected_entries s) k = Some (view_entry s (entry_offset_of s k) e).
+Proof. exact expected_entries_nth. Qed.
+Print Assumptions C06_expected_entries_nth.
+
+(* ... and get_decoded of that object shows the table section 6.4 gives the entry (CIE: its
+   initial instructions; FDE: from its CIE's rules at the pointer-decoded initial location) *)
+Theorem C06_section_tables : forall s k e t,
+  wf_section s = true -> nth_error (s_entries s) k = Some e ->
+  expected_table s (entry_offset_of s k) e = Some t ->
+  entry_domain s (entry_offset_of s k) e = true ->
+  result_matches (get_decoded (view_entry s (entry_offset_of s k) e)) t.
+Proof. exact section_tables. Qed.
+Print Assumptions C06_section_tables.
+
+(* non-vacuity: gcc's "zPLR" CIE (personality udata4|indirect-ish high bits 9, LSDA and FDE
+   addresses pc-relative sdata4), an FDE with an LSDA pointer, a terminator; the FDE's
+   initial location is -0x29e relative to its own field at 0x400000 + 0x20 + 8 *)
+Example C06_ex_eh_frame :
+  let cie := mkscie false 1
+               (Some (mkleb 7 [7], [AugP 9 PSdata4 (mkleb 0x20133d []); AugL (Some (PSdata4, true));
+                                    AugR PSdata4 true]))
+               (mkleb 1 [1]) (mkleb (-8) [0x78]) (mkleb 16 [16])
+               [I_def_cfa (mkleb 7 [7]) (mkleb 8 [8]); I_offset 16 (mkleb 1 [1]); I_nop; I_nop] in
+  let fde := mksfde false 0 (mkleb (-0x29e) []) (mkleb 0x89 []) (mkleb 4 [4]) (mkleb 0xb7 [])
+               [I_advance_loc 1; I_def_cfa_offset (mkleb 16 [16]); I_offset 6 (mkleb 2 [2])] in
+  let s := mkssection true true 8 0x400000 [SCie cie; SFde fde; SZero] in
+  wf_section s = true /\ zlen (encode_section s) = 62 /\
+  (match nth_error (expected_entries s) 1 with
+  | Some (FDE h _ off _ cie ab lsda) =>
+      Some (off, entry_offset cie, fh_CIE_pointer h, fh_initial_location h, ab, lsda)
+  | _ => None
+  end) = Some (0x20, 0, 0x24, 0x400000 + 0x28 - 0x29e, [0xb7; 0; 0; 0],
+              Some (0x400000 + 0x31 + 0xb7)).
+Proof. vm_compute. repeat split; reflexivity. Qed.
+
+(* non-vacuity: .debug_frame, big-endian, two FDEs BEFORE their 64-bit version-4 CIE *)
+Example C06_ex_debug_frame :
+  let cie := mkscie true 4 None (mkleb 4 [0x84; 0]) (mkleb (-4) [0x7c]) (mkleb 14 [14])
+               [I_def_cfa (mkleb 13 [13]) (mkleb 0 [0x80; 0])] in
+  let fde1 := mksfde false 2 (mkleb 0x1000 []) (mkleb 0x20 []) (mkleb 0 []) (mkleb 0 [])
+                [I_advance_loc 2; I_def_cfa_offset (mkleb 12 [12]); I_set_loc 0x1010] in
+  let fde2 := mksfde true 2 (mkleb 0x2000 []) (mkleb 0x10 []) (mkleb 0 []) (mkleb 0 []) [I_nop] in
+  let s := mkssection false false 4 0 [SFde fde1; SFde fde2; SCie cie] in
+  wf_section s = true /\
+  map entry_offset (expected_entries s) = [0; 24; 53] /\
+  (match nth_error (expected_entries s) 0 with
+  | Some (FDE h _ _ _ (CIE ch _ coff _ _ _) _ _) =>
+      Some (fh_CIE_pointer h, coff, ch_version ch, ch_address_size ch)
+  | _ => None
+  end) = Some (53, 53, 4, Some 4).
+Proof. vm_compute. repeat split; reflexivity. Qed.
+
+(* ------------------------------------------------------------------ tables *)
+(* The model of _decode_CFI_table on a CIE computes the table of the section 6.4 reference
+   interpreter: for ALL instruction lists and alignment factors (operands unbounded), whenever
+   the standard gives a table and its last row carries a rule (cie_domain; see the refutation) *)
+Theorem C06_table_equal_cie : forall caf daf cis t,
+  low6_all cis = true ->
+  cfi_spec_cie caf daf cis = Some t -> cie_domain caf daf cis = true ->
+  result_matches (decode_cie caf daf (map to_raw cis)) t.
+Proof. exact table_equal_cie. Qed.
+Print Assumptions C06_table_equal_cie.
+
+(* the same for an FDE: rows start from the CIE's initial rules at initial_location, restore
+   goes back to them, remember/restore_state, both factors *)
+Theorem C06_table_equal_fde : forall caf daf cis loc fis t,
+  low6_all cis = true -> low6_all fis = true ->
+  cfi_spec_fde caf daf cis loc fis = Some t -> fde_domain caf daf cis loc fis = true ->
+  result_matches (decode_fde caf daf (map to_raw cis) loc (map to_raw fis)) t.
+Proof. exact table_equal_fde. Qed.
+Print Assumptions C06_table_equal_fde.
+
+(* full strength fails: the row closed by the end of the stream is dropped when it carries no
+   rule (known finding table/final-row-without-rules-dropped) *)
+Theorem C06_table_cie_refuted : exists caf daf cis t,
+  low6_all cis = true /\ cfi_spec_cie caf daf cis = Some t /\
+  ~ result_matches (decode_cie caf daf (map to_raw cis)) t.
+Proof. exact table_cie_refuted. Qed.
+Print Assumptions C06_table_cie_refuted.
+
+Theorem C06_table_fde_refuted : exists caf daf cis loc fis t,
+  low6_all cis = true /\ low6_all fis = true /\
+  cfi_spec_fde caf daf cis loc fis = Some t /\
+  ~ result_matches (decode_fde caf daf (map to_raw cis) loc (map to_raw fis)) t.
+Proof. exact table_fde_refuted. Qed.
+Print Assumptions C06_table_fde_refuted.
+
+(* sequences the standard calls invalid: no table in the spec, an exception in the model *)
+Theorem C06_restore_state_underflow : forall caf daf,
+  cfi_spec_cie caf daf [I_restore_state] = None /\
+  decode_cie caf daf (map to_raw [I_restore_state]) = Err (EPy "IndexError").
+Proof. exact restore_state_underflow. Qed.
+Print Assumptions C06_restore_state_underflow.
+
+Theorem C06_restore_in_cie : forall caf daf r, 0 <= r < 64 ->
+  cfi_spec_cie caf daf [I_restore r] = None /\
+  decode_cie caf daf (map to_raw [I_restore r]) = Err EDwarf.
+Proof. exact restore_in_cie. Qed.
+Print Assumptions C06_restore_in_cie.
+
+(* get_decoded of the objects a section yields is decode_cie / decode_fde of their lists *)
+Theorem C06_get_decoded_view_cie : forall s off c,
+  get_decoded (view_cie s off c) =
+  decode_cie (lv (c_caf c)) (lv (c_daf c)) (map to_raw (c_instrs c)).
+Proof. exact get_decoded_view_cie. Qed.
+Print Assumptions C06_get_decoded_view_cie.
+
+Theorem C06_get_decoded_view_fde : forall s off f,
+  let c := cie_at (s_entries s) (f_cie f) in
+  get_decoded (view_fde s off f) =
+  decode_fde (lv (c_caf c)) (lv (c_daf c)) (map to_raw (c_instrs c))
+             (ptr_meaning (fde_pcrel (s_eh s) c) (s_addr s) (loc_field_off off f) (lv (f_loc f)))
+             (map to_raw (f_instrs f)).
+Proof. exact get_decoded_view_fde. Qed.
+Print Assumptions C06_get_decoded_view_fde.
+
+(* non-vacuity: DESIGN 5's example — def_cfa_sf r7,-2 under factors (4,-8) gives CFA r7+16 —
+   and an FDE using restore, remember/restore_state and both factors is inside fde_domain *)
+Example C06_ex_table_cie :
+  let cis := [I_def_cfa_sf (mkleb 7 [7]) (mkleb (-2) [0x7e])] in
+  cie_domain 4 (-8) cis = true /\
+  cfi_spec_cie 4 (-8) cis = Some (mktable [mkrow 0 (CfaRegOff 7 16) []] []).
+Proof. split; reflexivity. Qed.
+
+Example C06_ex_table_fde :
+  let cis := [I_def_cfa (mkleb 7 [7]) (mkleb 8 [8]); I_offset 16 (mkleb 1 [1])] in
+  let fis := [I_advance_loc 1; I_def_cfa_offset (mkleb 16 [16]); I_offset 6 (mkleb 2 [2]);
+              I_remember_state; I_advance_loc1 9; I_restore 16; I_def_cfa_offset_sf (mkleb (-3) [0x7d]);
+              I_advance_loc 2; I_restore_state] in
+  fde_domain 4 (-8) cis 0x1000 fis = true /\
+  option_map (fun t => map row_loc (t_rows t)) (cfi_spec_fde 4 (-8) cis 0x1000 fis)
+  = Some [0x1000; 0x1004; 0x1028; 0x1030].
+Proof. split; vm_compute; reflexivity. Qed.
